@@ -10,6 +10,7 @@ import (
 	"strings"
 
 	"sonicverif/sim"
+	shimnet "sonicverif/shim/net"
 )
 
 // Failure describes one oracle violation. Sig identifies the violation class
@@ -120,6 +121,7 @@ type Outcome struct {
 
 // RunOne executes one scenario run. variant<0: random run.
 func RunOne(prop string, sc *Scenario, variant int, seed uint64, replay []uint32, trace bool, thorough bool, known func(string) bool, avoid map[string]bool) (out Outcome) {
+	shimnet.ResetRegistry()
 	w := sim.NewWorld(seed, replay)
 	w.TraceOn = trace
 	c := &Ctx{W: w, Prop: prop, Scenario: sc.Name, Thorough: thorough, Known: known, Avoid: avoid}
